@@ -21,7 +21,7 @@ RULE = (
     "jitted np.random.rand stream must reproduce every counter and rand_ptr, and every observed batch must be the next unused 2048-slice. "
     "(3) distribution: R replicates of N unit adds (N in {200,1000,5000} for 4 configurations, plus single bulk adds of 65536, 70000 and 200000) for 4 log8 configurations; empirical CDF of the final counter within the "
     "DKW band (delta=1e-10) of the exact Markov-chain CDF; pooled refill batches and pooled entropy-seeded initial batches within the DKW band of "
-    "U[0,1), all in [0,1), distinct between sketches. (4) Hypothesis machine over 2 log sketches with merges, adversarial planted draws and single adds of 2^63-1 .. 2^64-1 (sketches with max_count <= 10^6): "
+    "U[0,1), all in [0,1), distinct between sketches, also between fresh sketches created in 8 forked child processes; the batches a parallel_add worker's log sketch holds after each of 5 items of 3000 units (seen by the callback) are pairwise different within a call and across two calls of one process. (4) Hypothesis machine over 2 log sketches with merges, adversarial planted draws and single adds of 2^63-1 .. 2^64-1 (sketches with max_count <= 10^6): "
     "query(k) >= min(true,nr+1), collision-free keys with true <= nr+1 exact. Non-trivial: a case in which a draw is consumed (counter >= "
     "num_reserved) or a refill occurs. Distinct = distinct (configuration, counter, draw) / (configuration, N) / (configuration, step list)."
 )
@@ -369,6 +369,75 @@ def _uniform_task(arg):
     return rec
 
 
+def _fork_task(arg):
+    """runs in a forked pool child: the first draw batches of fresh log sketches created there"""
+    import hashlib
+    import os
+    import time
+
+    time.sleep(0.3)  # spread the tasks over several children
+    out = []
+    for cls in (CountMinLog8, CountMinLog16, CountMinLog8):
+        s = cls(2, 1)
+        out.append(hashlib.sha1(np.array(s.rand_nums).tobytes()).hexdigest())
+    return os.getpid(), out
+
+
+def fork_freshness(rec):
+    """children forked after sketchnu was imported (a fork-context pool, os.fork in user code) must not share draw batches"""
+    res = common.pool_map(_fork_task, list(range(8)), nproc=8)
+    pids = {p for p, _ in res}
+    allh = [h for _, hs in res for h in hs]
+    case = {"fork_freshness": True}
+    if len(set(allh)) != len(allh):
+        rec.violation(case, f"fresh log sketches created in {len(pids)} forked child processes start with identical draw batches ({len(allh) - len(set(allh))} repeats among {len(allh)})", "batch-not-fresh")
+    rec.case(case, len(pids) >= 2, ["fresh_sketches_in_forked_children"], n=len(allh))
+
+
+def _parallel_refill_task(arg):
+    """Two parallel_add calls of one process with a log sketch whose workers consume several 2048-draw batches: the batches a
+    worker's sketch holds after each item (seen by the callback) must be new every time - within a call and across calls."""
+    import hashlib
+
+    from vf import cbmod, fakectx
+    import sketchnu.helpers as helpers
+
+    kind, nr = arg
+    rec = common.Recorder()
+    case = {"parallel_refill": True, "kind": kind, "num_reserved": nr}
+    items = [{"keys": [b"k%d" % i], "mult": [3000], "ngram": None, "ret": 1, "mode": "ok", "idx": i} for i in range(5)]
+    seen = []
+
+    def observe(sketches):
+        for sk in sketches:
+            if hasattr(sk, "rand_nums"):
+                seen[-1].append(hashlib.sha1(np.array(sk.rand_nums).tobytes()).hexdigest())
+
+    cbmod.observe_hook = observe
+    try:
+        for run_i in range(2):
+            seen.append([])
+            with fakectx.Patched({0: list(range(len(items)))}, 1):
+                try:
+                    res = helpers.parallel_add(list(items), cbmod.process_item, n_workers=1, cms_args={"cms_type": kind, "width": 64, "depth": 1, "max_count": 2**40, "num_reserved": nr})
+                except Exception as e:  # noqa
+                    rec.violation(case, f"parallel_add raised {type(e).__name__}: {e}", "parallel-add-raised")
+                    return rec
+            del res
+    finally:
+        cbmod.observe_hook = None
+        fakectx.remove_segments(fakectx.leaked_segments())
+    a, b = seen
+    if len(a) != len(items) or len(b) != len(items):
+        raise common.HarnessError(f"callback observed {len(a)}/{len(b)} batches for {len(items)} items")
+    if len(set(a)) != len(a) or len(set(b)) != len(b):
+        rec.violation(case, "a worker's draw batch was the same after two consecutive items that each consume 3000 draws (recycled)", "batch-not-fresh")
+    elif set(a) & set(b):
+        rec.violation(case, f"{len(set(a) & set(b))} of the {len(a)} draw batches a worker held in the second parallel_add call are identical to batches of the first call (draws recycled from run to run)", "batch-not-fresh")
+    rec.case(case, True, ["parallel_add_refills_across_two_calls"], n=len(a) + len(b))
+    return rec
+
+
 def _uniform_check(rec, v, what, case):
     if not (np.all(v >= 0.0) and np.all(v < 1.0)):
         rec.violation(case, f"{what}: a draw lies outside [0,1)", "draw-range")
@@ -454,6 +523,8 @@ def run(tier, seed, rec):
         dj.append((mc, nr, N, 1500 if quick else 15000, common.derive_seed(seed, "C06-dist-big", t), False))
     common.pool_merge(_dist_task, dj, rec)
     common.pool_merge(_uniform_task, [(common.derive_seed(seed, "C06-unif"), 200 if quick else 2000)], rec)
+    fork_freshness(rec)
+    common.pool_merge(_parallel_refill_task, [("log8", 15), ("log16", 1023)] if quick else [("log8", 15), ("log16", 1023), ("log8", 0), ("log16", 3)], rec)
     n_ex, steps, shards = (60, 40, 16) if quick else (300, 50, 32)
     common.pool_merge(_machine_shard, [(seed, i, n_ex, steps) for i in range(shards)], rec)
 
@@ -463,6 +534,11 @@ def replay(case):
         r = _replay_task((case["kind"], case["max_count"], case["num_reserved"], case["seed"]))
     elif case.get("dist"):
         r = _dist_task((case["max_count"], case["num_reserved"], case["N"], case["R"], case["seed"], case["unit_calls"]))
+    elif case.get("fork_freshness"):
+        r = common.Recorder()
+        fork_freshness(r)
+    elif case.get("parallel_refill"):
+        r = _parallel_refill_task((case["kind"], case["num_reserved"]))
     elif case.get("uniform"):
         r = _uniform_task((case.get("seed", 1), case.get("nbatches", 200)))
     elif "steps" in case:
